@@ -180,7 +180,7 @@ theorem ET.of_op {i : Frid} {s s' : St W}
 
 /-- **C06 (partial), one framer run**: bracketing and `entered = outlines` are kept by every run of a framer
 that raises neither `left` nor `reenter`. -/
-theorem C06_bracket_step_partial (sem : Sem W) (n : Nat) (i : Frid) (c : Control) {s s' : St W}
+theorem C06_bracket_step_partial (sem : Sem W) (n : Nat) (i : Frid) (ht : Top P i) (c : Control) {s s' : St W}
     (hs : framerStep P sem (opsAt P sem n) i c s = .ok s') : ET P s s' := by
   have hlo := opsAt_spec wf sem n
   have hle := opsAt_specE wf wfe sem n
@@ -196,8 +196,10 @@ theorem C06_bracket_step_partial (sem : Sem W) (n : Nat) (i : Frid) (c : Control
     exact ET.of_op (fun ho => ⟨(recur_spec wf hlo ho h).1, (recur_spec wf hlo ho h).2.1⟩)
       (EP.of_eqo wf (recur_eqo wf hlo hle h))
   · intro t t' h
-    exact ET.of_op (fun ho => ⟨(enterAll_spec wf hlo ho h).1, (enterAll_spec wf hlo ho h).2.1⟩)
-      (fun ho => ⟨(enterAll_e wf hlo hle wfe ho h).1, (enterAll_spec wf hlo ho h).2.1, (enterAll_e wf hlo hle wfe ho h).2⟩)
+    have hc := top_claimed ht t
+    exact ET.of_op (fun ho => ⟨(enterAll_spec wf hlo ho hc h).1, (enterAll_spec wf hlo ho hc h).2.1⟩)
+      (fun ho => ⟨(enterAll_e wf hlo hle wfe ho hc h).1, (enterAll_spec wf hlo ho hc h).2.1,
+        (enterAll_e wf hlo hle wfe ho hc h).2⟩)
   · intro ab t t' h
     exact ET.of_op (fun ho => ⟨(exitAll_spec wf hlo ho h).1, (exitAll_spec wf hlo ho h).2.1⟩)
       (fun ho => ⟨(exitAll_e wf hlo hle wfe ho h).1, (exitAll_spec wf hlo ho h).2.1, (exitAll_e wf hlo hle wfe ho h).2⟩)
@@ -207,15 +209,16 @@ of (framer, control, time): if neither `left` nor `reenter` is up at the end, th
 * no frame was ever entered while entered or exited while not entered (`dbl = false`: **bracket_alternate**), and
 * the entered frames are exactly the full outlines of the active frames of all framers (**entered_eq_outlines**). -/
 theorem C06_bracket_reachable_partial (sem : Sem W) (n : Nat) (steps : List (Frid × Control × Nat))
+    (htop : ∀ x, x ∈ steps → Top P x.1)
     {s0 s : St W} (ho : Owned P s0) (h0 : EAll P s0)
     (hrun : runSteps P sem (opsAt P sem n) steps s0 = .ok s) (hb : s.bad2 = false) : EAll P s := by
-  have key : ∀ (l : List (Frid × Control × Nat)) (a b : St W),
+  have key : ∀ (l : List (Frid × Control × Nat)) (a b : St W), (∀ x, x ∈ l → Top P x.1) →
       runSteps P sem (opsAt P sem n) l a = .ok b → ET P a b := by
     intro l
     induction l with
-    | nil => intro a b h; simp only [runSteps, Except.ok.injEq] at h; rw [← h]; exact ET.refl P a
+    | nil => intro a b _ h; simp only [runSteps, Except.ok.injEq] at h; rw [← h]; exact ET.refl P a
     | cons x xs ih =>
-      intro a b h
+      intro a b hta h
       obtain ⟨i, c, t⟩ := x
       simp only [runSteps] at h
       cases h1 : framerStep P sem (opsAt P sem n) i c { a with now := t } with
@@ -223,17 +226,19 @@ theorem C06_bracket_reachable_partial (sem : Sem W) (n : Nat) (steps : List (Fri
       | ok a1 =>
         simp only [h1] at h
         have e0 : ET P a { a with now := t } := fun hoa =>
-          ⟨⟨hoa.actives, hoa.active⟩, id, fun _ he => ⟨he.einv, he.dbl⟩⟩
-        exact ET.trans e0 (ET.trans (C06_bracket_step_partial wf wfe sem n i c h1) (ih a1 b h))
-  exact (key steps s0 s hrun ho).2.2 hb h0
+          ⟨⟨hoa.actives, hoa.active, hoa.main⟩, id, fun _ he => ⟨he.einv, he.dbl⟩⟩
+        exact ET.trans e0 (ET.trans (C06_bracket_step_partial wf wfe sem n i (hta (i, c, t) (by simp)) c h1)
+          (ih a1 b (fun y hy => hta y (by simp [hy])) h))
+  exact (key steps s0 s htop hrun ho).2.2 hb h0
 
 omit wf wfe in
 /-- a fresh state satisfies the invariant -/
 theorem C06_bracket_init {s : St W} (hf : Fresh s) (he : ∀ f, s.ent f = false) (hd : s.dbl = false) :
     Owned P s ∧ EAll P s := by
-  refine ⟨⟨?_, ?_⟩, ⟨?_, hd⟩⟩
+  refine ⟨⟨?_, ?_, ?_⟩, ⟨?_, hd⟩⟩
   · intro i f hm; rw [(hf i).2.1] at hm; cases hm
   · intro i a ha; rw [(hf i).1] at ha; cases ha
+  · intro f x _ _ hdn; rw [(hf x).2.2.1] at hdn; cases hdn
   · intro i f _
     rw [he f, (hf i).1]
     constructor
@@ -258,7 +263,8 @@ end top
 /-- **full statement**: bracketing and `entered = outlines` at the end of every run from a fresh state -/
 def C06_bracket_full : Prop :=
   ∀ (P : Prog) (rank : Frid → Nat), WF P rank → WFE P → ∀ (sem : Sem Unit) (n : Nat)
-    (steps : List (Frid × Control × Nat)) (s0 s : St Unit), Fresh s0 → (∀ f, s0.ent f = false) → s0.dbl = false →
+    (steps : List (Frid × Control × Nat)) (s0 s : St Unit), (∀ x, x ∈ steps → Top P x.1) →
+    Fresh s0 → (∀ f, s0.ent f = false) → s0.dbl = false →
     runSteps P sem (opsAt P sem n) steps s0 = .ok s → EAll P s
 
 theorem CexD3.wfe : WFE CexD3.prog := by
@@ -283,6 +289,7 @@ theorem C06_counterexample_D3c : ¬ C06_bracket_full := by
     rw [hrun] at hfacts
     simp only [Bool.and_eq_true, Option.isNone_iff_eq_none, Bool.not_eq_true'] at hfacts
     have hall := h CexD3.prog CexD3.rank CexD3.wf CexD3.wfe CexD3.sem 2 _ CexD3.init s
+      (by intro x hx; simp at hx; rcases hx with h | h | h <;> subst h <;> exact CexD3.top0)
       (by intro i; simp [CexD3.init, St.fr, isUp]) (fun _ => rfl) rfl hrun
     have := C06_inactive_nothing_entered hall 0 hfacts.1.1.2 2 (by simp [CexD3.prog, CexD3.fr0])
     rw [hfacts.1.1.1] at this
